@@ -263,10 +263,15 @@ func c14PolOps(isCond bool) []polOp {
 }
 
 func c14PolMachine(c *Ctx, kind string) *Machine[*polInst] {
-	isCond := kind == "CONDITION"
+	isCond := strings.HasPrefix(kind, "CONDITION")
+	builtinValid := kind != "CONDITION-invalid"
 	ops := c14PolOps(isCond)
 	name := "C14 closures " + kind
 	build := func() *polInst {
+		if kind == "CONDITION-invalid" {
+			// a Condition the built-in validity rules reject (no keyword): an installed closure is the sole judge
+			return &polInst{isCond: true, cd: stackage.Cond("", stackage.Eq, "val"), ct: stackage.Cond("", stackage.Eq, "val"), kind: kind}
+		}
 		if isCond {
 			return &polInst{isCond: true, cd: stackage.Cond("kw", stackage.Eq, "val"), ct: stackage.Cond("kw", stackage.Eq, "val"), kind: kind}
 		}
@@ -288,33 +293,50 @@ func c14PolMachine(c *Ctx, kind string) *Machine[*polInst] {
 			bad := func(k, f string, a ...any) { out = append(out, k+":"+cls+"\x00"+fmt.Sprintf(f, a...)) }
 			if isCond {
 				verr := in.cd.Valid()
-				switch in.vpf {
-				case 2:
+				switch {
+				case in.vpf == 2:
 					if verr != errV {
 						bad("cond-valid", "Valid()=%v want the very error of the validity closure", verr)
 					}
-				default:
+				case in.vpf == 1 || builtinValid:
 					if verr != nil {
-						bad("cond-valid", "Valid()=%v want nil (closure state %d)", verr, in.vpf)
+						bad("cond-valid", "Valid()=%v want nil (closure state %d, built-in verdict %v)", verr, in.vpf, builtinValid)
+					}
+				default:
+					if verr == nil {
+						bad("cond-valid", "Valid()=nil for a Condition without keyword and without validity closure")
 					}
 				}
-				wantStr := in.ct.String()
-				if in.rpf {
-					wantStr = "PRESENTED"
+				valid := in.vpf == 1 || (in.vpf == 0 && builtinValid)
+				got := in.cd.String()
+				switch {
+				case !valid:
+					if got != "" {
+						bad("cond-string", "String()=%q although Valid() reports an error", got)
+					}
+				case in.rpf:
+					if got != "PRESENTED" {
+						bad("cond-string", "String()=%q want the presentation closure's result", got)
+					}
+				case builtinValid:
+					if want := in.ct.String(); got != want {
+						bad("cond-string", "String()=%q want %q", got, want)
+					}
+				default:
+					if got == "" {
+						bad("cond-string", "String() is empty although the validity closure accepts the Condition")
+					}
 				}
-				if in.vpf == 2 {
-					wantStr = ""
-				}
-				if got := in.cd.String(); got != wantStr {
-					bad("cond-string", "String()=%q want %q (presentation %v validity %d)", got, wantStr, in.rpf, in.vpf)
-				}
-				eq := in.cd.IsEqual(stackage.Cond("kw", stackage.Eq, "val"))
+				eq := in.cd.IsEqual(stackage.Cond(in.ct.Keyword(), stackage.Eq, "val"))
 				wantEq := map[int]error{0: nil, 1: nil, 2: errE}[in.eqf]
+				if got := in.cd.IsEqual(in.cd); got != wantEq {
+					bad("cond-isequal-self", "IsEqual(itself)=%v want %v (equality closure state %d)", got, wantEq, in.eqf)
+				}
 				if eq != wantEq {
 					bad("cond-isequal", "IsEqual(copy)=%v want %v (equality closure state %d)", eq, wantEq, in.eqf)
 				}
 				if in.eqf == 0 {
-					if e := in.cd.IsEqual(stackage.Cond("other", stackage.Eq, "val")); e == nil {
+					if e := in.cd.IsEqual(stackage.Cond("other!", stackage.Eq, "val")); e == nil {
 						bad("cond-isequal", "built-in IsEqual accepts a different Condition after the closure was removed")
 					}
 				}
@@ -364,6 +386,12 @@ func c14PolMachine(c *Ctx, kind string) *Machine[*polInst] {
 			}
 			eq := s.IsEqual(in.tw)
 			wantEq := map[int]error{0: nil, 1: nil, 2: errE}[in.eqf]
+			// the closure decides for every comparand, the receiver itself (or an alias of it) included
+			for what, self := range map[string]any{"itself": s, "an alias of itself": StackAlias(s), "a pointer to itself": &s} {
+				if got := s.IsEqual(self); got != wantEq {
+					bad("isequal-self", "IsEqual(%s)=%v want %v (equality closure state %d)", what, got, wantEq, in.eqf)
+				}
+			}
 			if in.eqf == 0 && in.extra > 0 {
 				if eq == nil {
 					bad("isequal", "built-in IsEqual accepts a stack with %d extra elements", in.extra)
@@ -414,7 +442,7 @@ func init() {
 		c.States.Add(int64(len(cases)))
 		c.Exhaustive = true
 		kinds := append([]string{}, kindNames...)
-		kinds = append(kinds, "CONDITION")
+		kinds = append(kinds, "CONDITION", "CONDITION-invalid")
 		for _, k := range kinds {
 			st := BFS(c, c14PolMachine(c, k))
 			c.Exhaustive = c.Exhaustive && st.Complete
